@@ -172,8 +172,11 @@ def TableDecl.Ok (t : TableDecl) : Prop :=
 def TableDecl.h (t : TableDecl) : Nat := t.hdr.getD 1
 def TableDecl.t (t : TableDecl) : Nat := t.tot.getD 0
 
-/-- the declared data rectangle: the reference minus header rows at the top and totals rows at the bottom -/
-def TableDecl.dataRect (t : TableDecl) : Rect := ⟨t.rect.sr + t.h, t.rect.sc, t.rect.er - t.t, t.rect.ec⟩
+/-- the declared data rectangle: the reference minus header rows at the top and totals rows at the bottom;
+    when these leave no data row, the empty rectangle (rows `1 … 0` of the table's columns) -/
+def TableDecl.dataRect (t : TableDecl) : Rect :=
+  if t.rect.sr + t.h + t.t ≤ t.rect.er then ⟨t.rect.sr + t.h, t.rect.sc, t.rect.er - t.t, t.rect.ec⟩
+  else ⟨1, t.rect.sc, 0, t.rect.ec⟩
 
 /-- a relationship of a sheet `.rels` part -/
 structure RelDecl where
